@@ -507,7 +507,11 @@ make_function_remap(const InterrogateType &itype,
     new FunctionRemap(itype, ifunc, cppfunc, num_default_parameters, this);
   if (remap->_is_valid) {
     if (separate_overloading()) {
-      hash_function_signature(remap);
+      if (!hash_function_signature(remap)) {
+        // We have already wrapped a function with exactly this signature.
+        delete remap;
+        return nullptr;
+      }
       remap->_unique_name =
         get_unique_prefix() + _def->library_hash_name + remap->_hash;
       remap->_wrapper_name =
@@ -882,9 +886,11 @@ output_unref(ostream &out, int indent_level, FunctionRemap *remap,
 /**
  * Generates a unique string that corresponds to the function signature for
  * the indicated FunctionRemap object, and stores the generated string in the
- * _hash member of the FunctionRemap.
+ * _hash member of the FunctionRemap.  Returns false if a function with the
+ * same signature has been seen before, in which case this one cannot be
+ * wrapped separately.
  */
-void InterfaceMaker::
+bool InterfaceMaker::
 hash_function_signature(FunctionRemap *remap) {
   string hash = InterrogateBuilder::hash_string(remap->_function_signature, 5);
 
@@ -895,18 +901,18 @@ hash_function_signature(FunctionRemap *remap) {
     // No other name; we're in the clear.
     _wrappers_by_hash[hash] = remap;
     remap->_hash = hash;
-    return;
+    return true;
   }
 
   if ((*hi).second != nullptr &&
       (*hi).second->_function_signature == remap->_function_signature) {
-    // The same function signature has already appeared.  This shouldn't
-    // happen.
-    nout << "Internal error!  Function signature "
-         << remap->_function_signature << " repeated!\n";
-    remap->_hash = hash;
-    abort();
-    return;
+    // The same function signature has already appeared.  This happens when an
+    // overload coincides with another one once its default arguments are
+    // left out, as in f(int) and f(int, int = 0).  Such a call is ambiguous
+    // in C++ as well, so there is nothing to wrap a second time.
+    nout << "Warning: function signature " << remap->_function_signature
+         << " appears more than once; ignoring the repeated one.\n";
+    return false;
   }
 
   // We have a conflict.  Extend both strings to resolve the ambiguity.
@@ -943,6 +949,7 @@ hash_function_signature(FunctionRemap *remap) {
   }
 
   remap->_hash = hash;
+  return true;
 }
 
 /**
